@@ -283,9 +283,10 @@ fn scn_configs(o: &Opts, tr: &mut Tr, prop: &str) {
         // configurations reached through the setters (set_compression_level[_raw], set_format_and_level)
         // from a compressor created without match finding: must be the configuration of that level
         let mut k = 0usize;
-        for api in ["set0", "setH", "setN", "set9", "setR"] {
+        for api in ["set0", "setH", "setN", "set9", "setR", "setI", "newI"] {
             for lvl in [1u8, 2, 6, 9, 10] {
                 for zl in [true, false] {
+                    if api.ends_with('I') && !zl { continue; }
                     k += 1;
                     if !o.thorough && (k + o.seed as usize) % 2 == 0 { continue; }
                     let x = gen::data("rand", 3000, &mut r);
@@ -543,6 +544,42 @@ fn scn_flushes(o: &Opts, tr: &mut Tr, prop: &str) {
             let sch = Sched { chunk_pat: "first0".into(), outs: vec![[1usize << 20, 3, 100000][k % 3]], flush_pct: 100,
                               flush_set: vec![*fi], callback: false, max_points: 3 };
             stream_comp_case(tr, &format!("fl0-{}-l{}", comp::FLUSHES[*fi].0, lvl), prop, &data, &cfg, &sch, &mut r, "text");
+        }
+    }
+    // a flush requested by a call whose last input byte also triggers an internal block cut, into an
+    // output buffer too small for the block: the flush cannot happen in that call; it is asked for
+    // again (with or without a draining call in between) and must then take place
+    {
+        let mut k = 0usize;
+        for (lvl, st, kind) in [(0u8, 0usize, "rand"), (6, 2, "rand"), (1, 0, "rand"), (6, 0, "rand"), (9, 4, "hibytes")] {
+            for fi in [2usize, 3, 1] {
+                for delta in [-2i64, -1, 0, 1, 2] {
+                    for variant in 0..4usize {
+                        k += 1;
+                        let n0 = (31745i64 + delta) as usize;
+                        let data = gen::data(kind, n0 + 3000, &mut r);
+                        let small = [50usize, 1, 3000, 50][variant];
+                        let big = 1usize << 20;
+                        let script: Vec<(usize, usize, usize)> = match variant {
+                            0 => vec![(n0, small, fi), (0, big, fi), (0, big, fi), (1500, big, fi)],
+                            1 => vec![(n0, small, fi), (0, 40_000, 0), (0, big, fi), (0, big, fi)],
+                            2 => vec![(n0, small, fi), (0, small, fi), (0, small, fi), (0, big, fi), (0, big, fi), (1500, big, 0), (0, big, fi)],
+                            _ => vec![(n0 - 100, big, 0), (100, small, fi), (0, big, fi), (0, big, fi), (700, big, fi), (0, big, fi)],
+                        };
+                        let cfg = Cfg { zlib: k % 2 == 0, level: lvl, strat: st, wbits: 15, api: "params" };
+                        let sch = Sched { chunk_pat: "all".into(), outs: vec![big], flush_pct: 0, flush_set: vec![], callback: false, max_points: 4 };
+                        let sample = delta == 0 && (variant + fi + k / 60) % 4 == 0;
+                        comp::SCRIPT.with(|s| *s.borrow_mut() = script);
+                        if sample {
+                            stream_comp_case(tr, &format!("cutfl-l{}-{}-{}-d{}-v{}", lvl, STRATS[st].0, comp::FLUSHES[fi].0, delta, variant), prop, &data, &cfg, &sch, &mut r, kind);
+                        } else {
+                            tr.hold();
+                            let sus = stream_comp_case(tr, &format!("cutflb-l{}-{}-{}-d{}-v{}", lvl, STRATS[st].0, comp::FLUSHES[fi].0, delta, variant), prop, &data, &cfg, &sch, &mut r, kind);
+                            tr.release(sus);
+                        }
+                    }
+                }
+            }
         }
     }
     // history > 32 KiB before a full flush
